@@ -24,14 +24,22 @@ import (
 //           CloneWith under a real ActionContext; wrapped as bare op / OpSpec / ActionSpec / ChildActions
 //   exec    a data-only action spec (JSON → YAML → ActionSpec) executed as original and as clone on
 //           equal data; also as the body of a forEach against the uncloned sequential reference
+//   feach   a forEach over >= 2 items whose body's text fields (log message, set / template / patch path,
+//           exec argument list, in the body's operations or in a `steps` child) use `{{ .<variable> }}`:
+//           per item the effects and logs are those of a FRESH copy of the body cloned and executed for
+//           that item (the per-item clone leaves the forEach's own body untouched); running the same
+//           forEach value again gives the same again
 
 type c15Clone struct {
 	Op     string   `json:"op"`     // field name of OpSpec; the operation type is the pointed-to type
 	Fields []string `json:"fields"` // fields of the operation type that are populated (others stay zero)
 	Seed   int64    `json:"seed"`   // value choices
-	Tpl    []string `json:"tpl"`    // clone:"template" fields that receive template text
+	Tpl    []string `json:"tpl"`    // text fields that receive template text (clone:"template" fields: the clone must hold the rendered text)
 	X      string   `json:"x"`      // value of .x in the data
 	Wrap   string   `json:"wrap"`   // "" | opspec | action | children
+	// fields (among Fields) configured with an EMPTY value: non-nil pointer to "" / false / 0 / empty slice,
+	// empty non-nil slice or map.  A non-nil pointer to an empty string is a configured value like any other.
+	Empty []string `json:"empty,omitempty"`
 }
 
 type c15Exec struct {
@@ -41,12 +49,19 @@ type c15Exec struct {
 	Var     string         `json:"var,omitempty"`
 }
 
+type c15FE struct {
+	Body  map[string]any `json:"body"` // action spec in YAML-shaped JSON; text fields use {{ .<var> }}
+	Items []string       `json:"items"`
+	Var   string         `json:"var,omitempty"`
+	Data  W              `json:"data"`
+}
+
 func init() {
 	register(&Prop{ID: "C15", Run: c15Run,
-		Rule: "operation types are enumerated by reflection from pipeline.OpSpec (recursively through pointed-to types); each is populated by kind (strings, *string, bool, []int, []string, maps, *ValOrRef / *AnyVal / ActionSpec / ChildActions decoded from YAML or built recursively) from a seed, cloned under a real ActionContext and compared field by field (nil/empty identified), bare and wrapped in OpSpec / ActionSpec / ChildActions; template cases put `{{ .x }}` into clone:\"template\" fields; exec cases run data-only specs (set, patch, template, log, abort, define+call, loop, forEach) as original and clone on equal data and as forEach bodies. Non-trivial: at least one field populated. distinct = distinct canonical case JSON.",
+		Rule: "operation types are enumerated by reflection from pipeline.OpSpec (recursively through pointed-to types); each is populated by kind (strings, *string, bool, []int, []string, maps, *ValOrRef / *AnyVal / ActionSpec / ChildActions decoded from YAML or built recursively) from a seed, cloned under a real ActionContext and compared field by field (nil/empty identified), bare and wrapped in OpSpec / ActionSpec / ChildActions; template cases put `{{ .x }}` into clone:\"template\" fields; configured-but-empty values (non-nil pointer to \"\" / false / 0 / empty slice, empty non-nil slices and maps) are populated per field, alone and next to all other fields; template text also goes into text fields that are NOT tagged (string, *string, []string elements, *[]string elements, *ValOrRef: the clone may hold them verbatim or rendered) and every templated value is cloned twice under different data with a deep snapshot of the original (slice elements included) compared before/after; exec cases run data-only specs (set, patch, template, log, abort, define+call, loop, forEach) as original and clone on equal data and as forEach bodies; feach cases run a forEach over 2-3 items whose body (log, set, template, patch, exec `true` with an argument list, in operations or in a steps child) uses `{{ .<variable> }}` and compare outcome, data and logs with a fresh copy of the body cloned+executed per item, and with a second run of the same forEach value. Non-trivial: at least one field populated. distinct = distinct canonical case JSON.",
 		Assumptions: []string{"text/template + sprig is an external library: the model renders only the micro-fragment `{{ .x }}`; template-free = no `{{` … `}}` pair in any string (possiblyTemplate is false)",
 			"helpers safeRenderStrPointer/safeRenderStrSlice/safeCopyIntSlice/safeCloneValOrRef are classified by name by the extractor; their behaviour is validated only by this harness",
-			"operations with OS effects (exec, templateFile, import, export, env, ext, html2dom) are cloned and compared but not executed"}})
+			"operations with OS effects (exec, templateFile, import, export, env, ext, html2dom) are cloned and compared but not executed — except exec of the program `true` (no output, no files) in feach cases"}})
 	evals["C15"] = c15Eval
 	shrinkers["C15"] = shrinkJSON
 }
@@ -288,6 +303,7 @@ var c15ActionYaml = []string{
 	"forEach:\n  item: [a, b]\n  var: it\n  action:\n    patch:\n      op: add\n      path: /k\n      value:\n        z: [1, 2]\n",
 	"exec:\n  program: prog\n  args: [a1, a2]\n  validExitCodes: [0, 2]\n  saveExitCodeTo: ec\nexport:\n  file: out.yaml\n  path:\n    ref: some.ref\n  format: yaml\n",
 	"loop:\n  test: 'false'\n  init:\n    log:\n      message: init\n  action:\n    abort:\n      message: stop\n  postAction:\n    call:\n      name: fn\n      argsPath: ap\n      args:\n        k: v\n",
+	"templateFile:\n  file: f.tpl\n  output: o.txt\n  path: ''\nexec:\n  program: prog\n  args: []\n  stdout: ''\n  saveExitCodeTo: ''\npatch:\n  op: add\n  path: /x\n  valueFrom: ''\nforEach:\n  var: ''\n  item: []\n  action:\n    log:\n      message: ''\n",
 	"ext:\n  func: f1\n  args:\n    a: {b: 1}\ndefine:\n  name: d1\n  action:\n    templateFile:\n      file: f.tpl\n      output: o.txt\n      path: a.b\n",
 }
 
@@ -337,9 +353,23 @@ func c15Populate(v reflect.Value, r *rand.Rand, depth int, tplText string) {
 		v.Set(p)
 	case reflect.Slice:
 		n := r.Intn(3) // empty slices too
+		// a list of texts that receives template text: at least one element holds it (the choices
+		// depend only on WHETHER there is template text, so that the template / rendered builds agree)
+		tplElems := tplText != "" && t.Elem().Kind() == reflect.String
+		k := -1
+		if tplElems {
+			if n == 0 {
+				n = 1
+			}
+			k = r.Intn(n)
+		}
 		s := reflect.MakeSlice(t, n, n)
 		for i := 0; i < n; i++ {
-			c15Populate(s.Index(i), r, depth+1, "")
+			txt := ""
+			if tplElems && (i == k || r.Intn(2) == 0) {
+				txt = tplText
+			}
+			c15Populate(s.Index(i), r, depth+1, txt)
 		}
 		v.Set(s)
 	case reflect.Map:
@@ -383,6 +413,71 @@ func c15Populate(v reflect.Value, r *rand.Rand, depth int, tplText string) {
 	}
 }
 
+// c15PopulateEmpty configures v with the EMPTY value of its kind: a non-nil pointer to the zero value
+// ("" / false / 0 / empty non-nil slice / zero struct), an empty non-nil slice or map.  Other kinds: false.
+func c15PopulateEmpty(v reflect.Value) bool {
+	t := v.Type()
+	switch t.Kind() {
+	case reflect.Ptr:
+		if t == c15RegexpPtr {
+			return false
+		}
+		p := reflect.New(t.Elem())
+		if t.Implements(c15Unmarshaler) && c15InPipeline(t.Elem()) {
+			_ = yaml.Unmarshal([]byte(`""`), p.Interface())
+		} else {
+			switch t.Elem().Kind() {
+			case reflect.Slice:
+				p.Elem().Set(reflect.MakeSlice(t.Elem(), 0, 0))
+			case reflect.Map:
+				p.Elem().Set(reflect.MakeMap(t.Elem()))
+			}
+		}
+		v.Set(p)
+		return true
+	case reflect.Slice:
+		v.Set(reflect.MakeSlice(t, 0, 0))
+		return true
+	case reflect.Map:
+		v.Set(reflect.MakeMap(t))
+		return true
+	}
+	return false
+}
+
+// c15Texty: the field can hold text (string, *string, []string, *[]string, *ValOrRef) and so a template.
+func c15Texty(t reflect.Type) bool {
+	if t.Kind() == reflect.Ptr && t.Elem().Name() == "ValOrRef" && c15InPipeline(t.Elem()) {
+		return true
+	}
+	if t.Kind() == reflect.Ptr {
+		t = t.Elem()
+	}
+	if t.Kind() == reflect.Slice {
+		t = t.Elem()
+	}
+	return t.Kind() == reflect.String
+}
+
+func c15CanBeEmpty(t reflect.Type) bool {
+	switch t.Kind() {
+	case reflect.Ptr:
+		return t != c15RegexpPtr
+	case reflect.Slice, reflect.Map:
+		return true
+	}
+	return false
+}
+
+func c15In(l []string, s string) bool {
+	for _, x := range l {
+		if x == s {
+			return true
+		}
+	}
+	return false
+}
+
 // c15Build constructs the operation of a clone case; tplText != "" goes into the fields listed in Tpl.
 func c15Build(p c15Clone, opT reflect.Type, tplText string) reflect.Value {
 	op := reflect.New(opT)
@@ -398,11 +493,12 @@ func c15Build(p c15Clone, opT reflect.Type, tplText string) reflect.Value {
 		// every field has its own value stream, so that removing a field from the case does not
 		// change the others (shrinking) and the template variant differs only in the tagged fields
 		r := rand.New(rand.NewSource(p.Seed*1000 + int64(i)))
+		if c15In(p.Empty, f.Name) && c15PopulateEmpty(op.Elem().Field(i)) {
+			continue
+		}
 		txt := ""
-		for _, n := range p.Tpl {
-			if n == f.Name && f.Tag.Get("clone") == "template" {
-				txt = tplText
-			}
+		if c15In(p.Tpl, f.Name) && c15Texty(f.Type) {
+			txt = tplText
 		}
 		c15Populate(op.Elem().Field(i), r, 0, txt)
 	}
@@ -419,11 +515,16 @@ func c15Run(c *Ctx) {
 	wraps := []string{"", "opspec", "action", "children"}
 	for _, n := range names {
 		t := types[n]
-		var all, tagged []string
+		var all, tagged, texty, emptyable []string
 		for i := 0; i < t.NumField(); i++ {
 			all = append(all, t.Field(i).Name)
 			if t.Field(i).Tag.Get("clone") == "template" {
 				tagged = append(tagged, t.Field(i).Name)
+			} else if c15Texty(t.Field(i).Type) {
+				texty = append(texty, t.Field(i).Name)
+			}
+			if c15CanBeEmpty(t.Field(i).Type) {
+				emptyable = append(emptyable, t.Field(i).Name)
 			}
 		}
 		for _, w := range wraps {
@@ -438,21 +539,45 @@ func c15Run(c *Ctx) {
 		if len(tagged) > 1 {
 			c.Do("clone", c15Clone{Op: n, Fields: all, Seed: r.Int63n(1 << 30), Tpl: tagged, X: "W", Wrap: pick(r, wraps)})
 		}
+		// configured-but-empty values: alone, next to everything else, all of them
+		for _, f := range emptyable {
+			c.Do("clone", c15Clone{Op: n, Fields: []string{f}, Empty: []string{f}, Seed: r.Int63n(1 << 30), X: "V"})
+			c.Do("clone", c15Clone{Op: n, Fields: all, Empty: []string{f}, Seed: r.Int63n(1 << 30), X: "V", Wrap: pick(r, wraps)})
+		}
+		if len(emptyable) > 1 {
+			c.Do("clone", c15Clone{Op: n, Fields: all, Empty: emptyable, Seed: r.Int63n(1 << 30), X: "V", Wrap: pick(r, wraps)})
+		}
+		// template text in text fields that are not tagged as templates (texts, pointers to text, lists of texts):
+		// whatever the clone does with them, the original stays as it was
+		for _, f := range texty {
+			c.Do("clone", c15Clone{Op: n, Fields: all, Seed: r.Int63n(1 << 30), Tpl: []string{f}, X: pick(r, []string{"V", "a.b", "7"}), Wrap: pick(r, wraps)})
+		}
+		if len(texty) > 0 && len(tagged)+len(texty) > 1 {
+			c.Do("clone", c15Clone{Op: n, Fields: all, Seed: r.Int63n(1 << 30), Tpl: append(append([]string{}, tagged...), texty...), X: "W", Wrap: pick(r, wraps)})
+		}
 	}
 	for i := 0; i < c.N(1500); i++ {
 		c.Tick()
 		n := pick(r, names)
 		t := types[n]
-		var fs, tpl []string
+		var fs, tpl, empty []string
 		for j := 0; j < t.NumField(); j++ {
 			if r.Intn(4) != 0 {
 				fs = append(fs, t.Field(j).Name)
-				if t.Field(j).Tag.Get("clone") == "template" && r.Intn(3) == 0 {
+				switch {
+				case t.Field(j).Tag.Get("clone") == "template":
+					if r.Intn(3) == 0 {
+						tpl = append(tpl, t.Field(j).Name)
+					}
+				case c15Texty(t.Field(j).Type) && r.Intn(5) == 0:
 					tpl = append(tpl, t.Field(j).Name)
+				}
+				if c15CanBeEmpty(t.Field(j).Type) && !c15In(tpl, t.Field(j).Name) && r.Intn(6) == 0 {
+					empty = append(empty, t.Field(j).Name)
 				}
 			}
 		}
-		c.Do("clone", c15Clone{Op: n, Fields: fs, Seed: r.Int63n(1 << 30), Tpl: tpl, X: pick(r, []string{"V", "a.b", "7", ""}), Wrap: pick(r, wraps)})
+		c.Do("clone", c15Clone{Op: n, Fields: fs, Seed: r.Int63n(1 << 30), Tpl: tpl, Empty: empty, X: pick(r, []string{"V", "a.b", "7", ""}), Wrap: pick(r, wraps)})
 	}
 	g := stdGen()
 	g.MaxDepth = 3
@@ -467,6 +592,64 @@ func c15Run(c *Ctx) {
 		}
 		c.Do("exec", e)
 	}
+	for i := 0; i < c.N(90); i++ {
+		c.Tick()
+		e := c15FE{Data: g.Doc(r)}
+		if r.Intn(2) == 0 {
+			e.Var = pick(r, []string{"it", "v_1"})
+		}
+		vn := "forEach"
+		if e.Var != "" {
+			vn = e.Var
+		}
+		e.Body = c15GenTplBody(r, "{{ ."+vn+" }}")
+		its := []string{"i1", "i2", "i3"}
+		r.Shuffle(len(its), func(a, b int) { its[a], its[b] = its[b], its[a] })
+		e.Items = its[:2+r.Intn(2)]
+		if r.Intn(5) == 0 {
+			e.Items = append(e.Items, e.Items[0])
+		}
+		c.Do("feach", e)
+	}
+}
+
+// c15GenTplBody generates a forEach body whose text fields use ref (= `{{ .<variable> }}`).
+func c15GenTplBody(r *rand.Rand, ref string) map[string]any {
+	one := func() (string, map[string]any) {
+		// exec spawns a process (slow): in about a third of the bodies
+		switch k := r.Intn(8); {
+		case k < 2:
+			return "log", map[string]any{"message": "m-" + ref}
+		case k < 4:
+			s := map[string]any{"path": "out." + ref, "data": map[string]any{"a": 1, "t": "k"}}
+			if r.Intn(2) == 0 {
+				s["path"] = ref
+			}
+			return "set", s
+		case k == 4:
+			return "template", map[string]any{"template": "t:" + ref, "path": "tp." + ref}
+		case k < 7:
+			return "patch", map[string]any{"op": "add", "path": "/p_" + ref, "value": pick(r, []any{1, "s", []any{"p", "q"}})}
+		default:
+			args := []any{}
+			for i, n := 0, 1+r.Intn(3); i < n; i++ {
+				args = append(args, pick(r, []string{ref, "x-" + ref, "k", ref + "/" + ref}))
+			}
+			args[r.Intn(len(args))] = pick(r, []string{ref, "a=" + ref})
+			return "exec", map[string]any{"program": "true", "args": args}
+		}
+	}
+	spec := map[string]any{}
+	for i, n := 0, 1+r.Intn(3); i < n; i++ {
+		k, v := one()
+		spec[k] = v
+	}
+	if r.Intn(2) == 0 {
+		// a `steps` child: executed for every item without being cloned
+		k, v := one()
+		spec["steps"] = map[string]any{"s1": map[string]any{"order": 1, k: v, "log": map[string]any{"message": "c-" + ref}}}
+	}
+	return spec
 }
 
 // c15GenSpec generates a data-only action spec in YAML-shaped JSON (template-free).
@@ -563,7 +746,127 @@ func c15Eval(c *Ctx, kind string, raw []byte) {
 			panic(err)
 		}
 		c15EvalExec(c, p)
+	case "feach":
+		var p c15FE
+		if err := json.Unmarshal(raw, &p); err != nil {
+			panic(err)
+		}
+		c15EvalFE(c, p)
 	}
+}
+
+// c15OnlyTrue: every exec operation anywhere in the spec runs the program `true` (the domain of feach
+// cases: nothing else is ever spawned, whatever a replay file or the shrinker puts there).
+func c15OnlyTrue(v any) bool {
+	switch x := v.(type) {
+	case map[string]any:
+		for k, e := range x {
+			if k == "exec" {
+				m, ok := e.(map[string]any)
+				if !ok || m["program"] != "true" || m["stdout"] != nil || m["stderr"] != nil || m["dir"] != nil {
+					return false
+				}
+				for mk := range m {
+					switch mk {
+					case "program", "args", "validExitCodes", "saveExitCodeTo":
+					default:
+						return false
+					}
+				}
+				continue
+			}
+			if !c15OnlyTrue(e) {
+				return false
+			}
+		}
+	case []any:
+		for _, e := range x {
+			if !c15OnlyTrue(e) {
+				return false
+			}
+		}
+	}
+	return true
+}
+
+func c15EvalFE(c *Ctx, p c15FE) {
+	if !c15OnlyTrue(p.Body) {
+		c.Dist("feach:outside-domain(skipped)")
+		return
+	}
+	for k := range p.Body {
+		switch k {
+		case "log", "set", "template", "patch", "exec", "steps":
+		default:
+			c.Dist("feach:outside-domain(skipped)")
+			return
+		}
+	}
+	as, err := c15Decode(p.Body)
+	if err != nil {
+		c.Dist("feach:undecodable")
+		return
+	}
+	if _, ok := wireCont(p.Data); !ok {
+		return
+	}
+	if len(p.Items) >= 2 {
+		c.Nontrivial()
+	}
+	for _, k := range sortedKeys(p.Body) {
+		c.Dist("feach-op:" + k)
+	}
+	vp := "forEach"
+	if p.Var != "" {
+		vp = p.Var
+	}
+	items := pipeline.ValOrRefSlice{}
+	for _, it := range p.Items {
+		items = append(items, &pipeline.ValOrRef{Val: it})
+	}
+	fe := &pipeline.ForEachOp{Item: &items, Action: as}
+	if p.Var != "" {
+		fe.Variable = &p.Var
+	}
+	r1 := c15RunAction(p.Data, func(ex pipeline.Executor, _ dom.ContainerBuilder) error { return ex.Execute(fe) })
+	if !c.Direct("no-panic", r1.Out != "panic", r1.Logs) {
+		return
+	}
+	c.Dist("feach-outcome:" + r1.Out)
+	// per item: a fresh copy of the body (decoded anew, never cloned or executed before), each operation
+	// cloned in the item's context and executed, then the children
+	ref := c15RunAction(p.Data, func(ex pipeline.Executor, d dom.ContainerBuilder) error {
+		for _, it := range p.Items {
+			body, _ := c15Decode(p.Body)
+			d.AddValue(vp, dom.LeafNode(it))
+			err := ex.Execute(&c15Probe{func(ctx pipeline.ActionContext) error {
+				ov := reflect.ValueOf(body.Operations)
+				for _, f := range reflect.VisibleFields(ov.Type()) {
+					fv := ov.FieldByIndex(f.Index)
+					if fv.Kind() != reflect.Ptr || fv.IsNil() {
+						continue
+					}
+					if err := ctx.Executor().Execute(fv.Interface().(pipeline.Action).CloneWith(ctx)); err != nil {
+						return err
+					}
+				}
+				return ctx.Executor().Execute(body.Children)
+			}})
+			d.Remove(vp)
+			if err != nil {
+				return err
+			}
+		}
+		return nil
+	})
+	det := func(a, b any) any { return map[string]any{"forEach": a, "fresh body per item": b} }
+	c.Direct("forEach-per-item-fresh-clone(outcome)", ref.Out == r1.Out, det(r1.Out, ref.Out))
+	c.Direct("forEach-per-item-fresh-clone(data)", canon(ref.Data) == canon(r1.Data), det(r1.Data, ref.Data))
+	c.Direct("forEach-per-item-fresh-clone(logs)", canon(ref.Logs) == canon(r1.Logs), det(r1.Logs, ref.Logs))
+	// the same forEach value once more on equal data: cloning / executing the body left it as configured
+	r2 := c15RunAction(p.Data, func(ex pipeline.Executor, _ dom.ContainerBuilder) error { return ex.Execute(fe) })
+	c.Direct("forEach-rerun-same-effect", r1.Out == r2.Out && canon(r1.Data) == canon(r2.Data) && canon(r1.Logs) == canon(r2.Logs),
+		map[string]any{"first": r1, "second": r2})
 }
 
 func c15EvalTable(c *Ctx) {
@@ -633,20 +936,42 @@ func c15EvalClone(c *Ctx, p c15Clone) {
 	} else {
 		c.Dist("clone:template-free")
 	}
+	if len(p.Empty) > 0 {
+		c.Dist("clone:with-empty-configured-value")
+	}
 	orig := c15Wrap(c15Build(p, opT, tplText), p.Op, p.Wrap)
-	// what the clone must hold: the same construction with the rendered text in place of the template
-	expected := c15Wrap(c15Build(p, opT, strings.ReplaceAll(tplText, "{{ .x }}", p.X)), p.Op, p.Wrap)
+	// deep snapshot of the original (pointers followed, every slice element and map entry included)
 	before := c15Dump(reflect.ValueOf(orig), 0)
-	var clone pipeline.Action
-	data := dom.Builder().Container()
-	data.AddValue("x", dom.LeafNode(p.X))
-	data.AddValueAt("other.y", dom.LeafNode(1))
-	out, txt := guard(func() {
-		_ = c15WithCtx(data, nil, func(ctx pipeline.ActionContext) error {
-			clone = orig.CloneWith(ctx)
-			return nil
+	cloneUnder := func(x string) (clone pipeline.Action, out, txt string) {
+		data := dom.Builder().Container()
+		data.AddValue("x", dom.LeafNode(x))
+		data.AddValueAt("other.y", dom.LeafNode(1))
+		out, txt = guard(func() {
+			_ = c15WithCtx(data, nil, func(ctx pipeline.ActionContext) error {
+				clone = orig.CloneWith(ctx)
+				return nil
+			})
 		})
-	})
+		return
+	}
+	// what a clone under x must hold: the same construction with the rendered text in place of the
+	// template.  A text field that is NOT tagged clone:"template" may be carried over verbatim or
+	// rendered (the property fixes neither): whichever of the two the clone holds is expected.
+	expectedFor := func(clone pipeline.Action, x string) pipeline.Action {
+		exp := c15Build(p, opT, strings.ReplaceAll(tplText, "{{ .x }}", x))
+		if cop := c15Unwrap(clone, p.Op, p.Wrap); tplText != "" && cop.IsValid() && cop.Type() == exp.Type() && !cop.IsNil() {
+			verb := c15Build(p, opT, tplText)
+			for i := 0; i < opT.NumField(); i++ {
+				f := opT.Field(i)
+				if c15In(p.Tpl, f.Name) && f.Tag.Get("clone") != "template" && exp.Elem().Field(i).CanSet() &&
+					c15Dump(cop.Elem().Field(i), 0) == c15Dump(verb.Elem().Field(i), 0) {
+					exp.Elem().Field(i).Set(verb.Elem().Field(i))
+				}
+			}
+		}
+		return c15Wrap(exp, p.Op, p.Wrap)
+	}
+	clone, out, txt := cloneUnder(p.X)
 	if !c.Direct("no-panic", out == "ok", txt) {
 		return
 	}
@@ -658,27 +983,69 @@ func c15EvalClone(c *Ctx, p c15Clone) {
 	c.Direct("clone-same-type", reflect.TypeOf(clone) == reflect.TypeOf(orig), fmt.Sprintf("%T vs %T", clone, orig))
 	// field by field on the operation itself so that the failing field is named
 	if reflect.TypeOf(clone) == reflect.TypeOf(orig) {
-		ev, cv := reflect.ValueOf(expected), reflect.ValueOf(clone)
-		if ev.Kind() == reflect.Ptr && !ev.IsNil() && !cv.IsNil() && ev.Elem().Kind() == reflect.Struct {
+		expected := expectedFor(clone, p.X)
+		ev, cv := c15Unwrap(expected, p.Op, p.Wrap), c15Unwrap(clone, p.Op, p.Wrap)
+		if ev.IsValid() && cv.IsValid() && ev.Kind() == reflect.Ptr && cv.Type() == ev.Type() && !ev.IsNil() && !cv.IsNil() && ev.Elem().Kind() == reflect.Struct {
 			for i := 0; i < ev.Elem().NumField(); i++ {
 				a, b := c15Dump(ev.Elem().Field(i), 0), c15Dump(cv.Elem().Field(i), 0)
 				name := "clone-deep-equal(template-free)"
-				for _, t := range p.Tpl {
-					if t == opT.Field(i).Name {
-						name = "clone-holds-rendered-text"
-					}
+				switch {
+				case c15In(p.Empty, opT.Field(i).Name):
+					name = "clone-carries-over-empty-configured-value"
+				case tplText != "" && c15In(p.Tpl, opT.Field(i).Name) && opT.Field(i).Tag.Get("clone") == "template":
+					name = "clone-holds-rendered-text"
+				case tplText != "" && c15In(p.Tpl, opT.Field(i).Name):
+					name = "clone-holds-text-verbatim-or-rendered"
 				}
 				c.Direct(name, a == b, map[string]any{"type": opT.Name(), "field": opT.Field(i).Name, "expected": a, "clone": b})
 			}
 		}
-		a, b := c15Dump(ev, 0), c15Dump(cv, 0)
+		a, b := c15Dump(reflect.ValueOf(expected), 0), c15Dump(reflect.ValueOf(clone), 0)
 		c.Direct("clone-deep-equal(whole value)", a == b, map[string]any{"expected": a, "clone": b})
+	}
+	if tplText != "" {
+		// cloning again in a context with other data: the original still holds the template text, so the
+		// second clone holds the text rendered against ITS context (not the first clone's rendering)
+		x2 := p.X + "#2"
+		clone2, out2, txt2 := cloneUnder(x2)
+		if c.Direct("no-panic(second clone)", out2 == "ok" && clone2 != nil, txt2) && reflect.TypeOf(clone2) == reflect.TypeOf(orig) {
+			a, b := c15Dump(reflect.ValueOf(expectedFor(clone2, x2)), 0), c15Dump(reflect.ValueOf(clone2), 0)
+			c.Direct("second-clone-renders-against-its-own-context", a == b, map[string]any{"x": x2, "expected": a, "clone": b})
+			c.Direct("original-untouched-by-clone", before == c15Dump(reflect.ValueOf(orig), 0),
+				map[string]any{"before": before, "after two clones": c15Dump(reflect.ValueOf(orig), 0)})
+		}
 	}
 	if c.searchMode {
 		return
 	}
-	m := c.Model("clone", map[string]any{"v": c15CV(reflect.ValueOf(orig)), "x": p.X})
+	// the model clones what the original was BEFORE the implementation had a chance to touch it
+	pristine := c15Wrap(c15Build(p, opT, tplText), p.Op, p.Wrap)
+	m := c.Model("clone", map[string]any{"v": c15CV(reflect.ValueOf(pristine)), "x": p.X})
 	c.Corr("cloneV", c15CV(reflect.ValueOf(clone)), m)
+}
+
+// c15Unwrap returns the operation (pointer) inside a value built by c15Wrap; invalid if it is not there.
+func c15Unwrap(a pipeline.Action, field, wrap string) reflect.Value {
+	opOf := func(os pipeline.OpSpec) reflect.Value { return reflect.ValueOf(os).FieldByName(field) }
+	switch x := a.(type) {
+	case pipeline.OpSpec:
+		if wrap == "opspec" {
+			return opOf(x)
+		}
+	case pipeline.ActionSpec:
+		if wrap == "action" {
+			return opOf(x.Operations)
+		}
+	case pipeline.ChildActions:
+		if c1, ok := x["c1"]; ok && wrap == "children" {
+			return opOf(c1.Operations)
+		}
+	default:
+		if wrap == "" && a != nil {
+			return reflect.ValueOf(a)
+		}
+	}
+	return reflect.Value{}
 }
 
 func c15Decode(spec map[string]any) (pipeline.ActionSpec, error) {
